@@ -163,6 +163,7 @@ func directDefers(c Chunk) int {
 	return n
 }
 
+// a fixed finding (checks/C15.findings.jsonl): the class only names the input shape
 const deferClass = "defer-ok-exception"
 
 // ClassOf walks the program and reports the first defect-prone input class.
@@ -379,7 +380,7 @@ func run(c *reg.Ctx) {
 		var prog Chunk
 		for tries := 0; ; tries++ {
 			prog = g.Program()
-			if ClassOf(prog) == "core" || tries > 20 {
+			if cls := ClassOf(prog); cls == "core" || cls == deferClass || tries > 20 {
 				break
 			}
 			g = NewGen(c.Rand)
